@@ -4,7 +4,8 @@
    initial state and replays it against RespHeadersOps.  Total: consumes every event, records
    the first failing P-clause in `verdict` ("clause|detail"), the first failing D-clause in `dnote`.
 
-   trace:  [iface, sd, media, ev]
+   trace:  [iface, sd, media, ev]      (sd: resp_options.secure_cookies_by_default when the request starts;
+                                        an event with op "set_option" and `flag` changes it mid-request)
    event:  [op, n, v, items, p, a, link, ck, ca, ua, err, exc, res, after, law, t0, t1,  (calls)
             plain, rawnames, lownames, lines, echo, echo1, now]                            (op = "emit")
      after    resp.headers after a mutating call, as <<name, value>> pairs (names case-folded by the harness)
@@ -47,8 +48,8 @@ CONSTANT KnownSets      \* the deviation sets every trace is judged under ({{}} 
 
 Traces == JsonDeserialize(IOEnv.TRACE_FILE)
 
-VARIABLES tid, l, known, model, raw, jar, inh, vals, times, verdict, dnote
-vars == <<tid, l, known, model, raw, jar, inh, vals, times, verdict, dnote>>
+VARIABLES tid, l, known, sd, model, raw, jar, inh, vals, times, verdict, dnote
+vars == <<tid, l, known, sd, model, raw, jar, inh, vals, times, verdict, dnote>>
 Known == known
 OnlyProperty  == {{}}
 Deviations    == {"M", "Z", "E", "Q", "C"}
@@ -60,7 +61,7 @@ KStr(K) == (IF "M" \in K THEN "M" ELSE "") \o (IF "Z" \in K THEN "Z" ELSE "") \o
 T  == Traces[tid]
 Ev == T.ev[l]
 
-Init == /\ tid \in 1..Len(Traces) /\ l = 1 /\ known \in KnownSets
+Init == /\ tid \in 1..Len(Traces) /\ l = 1 /\ known \in KnownSets /\ sd = Traces[tid].sd
         /\ model = EmptyMap /\ raw = <<>> /\ jar = EmptyMap /\ inh = EmptyMap /\ vals = EmptyMap /\ times = EmptyMap
         /\ verdict = "ok" /\ dnote = ""
 
@@ -94,7 +95,7 @@ Refused == Ev.op = "set_cookie" /\ CookieRefused(Ev.vcps)
 NewJar ==
     CASE Refused -> jar
       [] Ev.op = "set_cookie" ->
-            LET new == CookieOf(EffCA(Ev.ca), T.sd) IN
+            LET new == CookieOf(EffCA(Ev.ca), sd) IN
             Put(jar, Ev.ck, IF "M" \in Known /\ Ev.ck \in DOMAIN jar THEN MergeSet(jar[Ev.ck], new) ELSE new)
       [] Ev.op = "unset_cookie" -> Put(jar, Ev.ck, UnsetOf(Ev.ua))
       [] OTHER -> jar
@@ -106,6 +107,9 @@ NewInh ==
       [] OTHER -> inh
 (* vals: the value of the last set_cookie per name, as code points (for the coding D-clause) *)
 NewVals == IF Ev.op = "set_cookie" /\ ~Refused THEN Put(vals, Ev.ck, Ev.vcps) ELSE vals
+(* sd: resp_options.secure_cookies_by_default as the application last set it (op "set_option"); a set_cookie
+   with secure=None takes the value it has at the time of the call *)
+NewSd == IF Ev.op = "set_option" THEN Ev.flag ELSE sd
 NewTimes == IF Ev.op = "unset_cookie" THEN Put(times, Ev.ck, <<Ev.t0, Ev.t1>>) ELSE times
 
 (* ---- the encoding law ---- *)
@@ -251,16 +255,16 @@ Step ==
     /\ IF Ev.op = "emit"
          THEN /\ verdict' = EmitVerdict
               /\ dnote' = (IF dnote = "" /\ verdict' = "ok" THEN EmitNote ELSE dnote)
-              /\ UNCHANGED <<model, raw, jar, inh, vals, times>>
+              /\ UNCHANGED <<sd, model, raw, jar, inh, vals, times>>
          ELSE /\ verdict' = CallVerdict
-              /\ model' = NewModel /\ raw' = NewRaw /\ jar' = NewJar /\ inh' = NewInh /\ vals' = NewVals /\ times' = NewTimes
+              /\ model' = NewModel /\ raw' = NewRaw /\ jar' = NewJar /\ inh' = NewInh /\ vals' = NewVals /\ times' = NewTimes /\ sd' = NewSd
               /\ UNCHANGED dnote
     /\ l' = l + 1 /\ UNCHANGED <<tid, known>>
 
 Done ==
     /\ l >= 1 /\ (l > Len(T.ev) \/ verdict # "ok")
     /\ PrintT(<<"VERDICT", tid, IF verdict = "ok" /\ dnote # "" THEN dnote ELSE verdict, l - 1, KStr(known)>>)
-    /\ l' = -1 /\ UNCHANGED <<tid, known, model, raw, jar, inh, vals, times, verdict, dnote>>
+    /\ l' = -1 /\ UNCHANGED <<tid, known, sd, model, raw, jar, inh, vals, times, verdict, dnote>>
 
 Next == Step \/ Done
 Spec == Init /\ [][Next]_vars
